@@ -494,7 +494,11 @@ func c16Yaml(a c16Args) string {
 }
 
 func c16LoadReq(a c16Args) core.LoadReq {
-	return core.LoadReq{ConfigFiles: []string{"compose.yaml"}, Env: a.Penv, ProjectName: "c16",
+	files := []string{"compose.yaml"}
+	if a.Layout == "merge" {
+		files = append(files, "compose.override.yaml")
+	}
+	return core.LoadReq{ConfigFiles: files, Env: a.Penv, ProjectName: "c16",
 		SkipNormalization: a.SkipNormalization, SkipResolveEnvironment: a.SkipResolveEnvironment, DiscardEnvFiles: a.Discard}
 }
 
@@ -513,12 +517,15 @@ func c16Docs(a c16Args) map[string]string {
 	switch a.Layout {
 	case "include":
 		return map[string]string{"compose.yaml": "include:\n  - inc/compose.yaml\n", "inc/compose.yaml": c16Yaml(a)}
-	case "extends", "extends-split":
+	case "extends", "extends-split", "merge":
 		base, main := a, a
 		base.Services, main.Services = nil, nil
 		for i, s := range a.Services {
 			b, m := s, c16Service{Name: s.Name, Extends: s.Name, ShortFiles: s.ShortFiles}
-			if a.Layout == "extends-split" {
+			if a.Layout == "merge" {
+				m.Extends = ""
+			}
+			if a.Layout == "extends-split" || a.Layout == "merge" {
 				ne, nl := (len(s.EnvFiles)+1)/2, (len(s.LabelFiles)+1)/2
 				b.EnvFiles, m.EnvFiles = s.EnvFiles[:ne], s.EnvFiles[ne:]
 				b.LabelFiles, m.LabelFiles = s.LabelFiles[:nl], s.LabelFiles[nl:]
@@ -529,6 +536,11 @@ func c16Docs(a c16Args) map[string]string {
 			}
 			base.Services = append(base.Services, b)
 			main.Services = append(main.Services, m)
+		}
+		if a.Layout == "merge" {
+			// round 7: base + override, two config files of one directory; override.mergeToSequence appends the
+			// overriding lists to the base lists, then override.EnforceUnicity runs over the merged service
+			return map[string]string{"compose.yaml": c16Yaml(base), "compose.override.yaml": c16Yaml(main)}
 		}
 		return map[string]string{"compose.yaml": c16Yaml(main), "base/b.yaml": c16Yaml(base)}
 	}
@@ -655,6 +667,8 @@ type c16OracleArgs struct {
 	Sites bool `json:"sites,omitempty"`
 	// SiteLayout: the one layout run with Sites ("" = all three; the generators rotate)
 	SiteLayout string `json:"site_layout,omitempty"`
+	// Merge (round 7): also the base + override layout (file lists split over two config files of one directory)
+	Merge bool `json:"merge,omitempty"`
 }
 
 func (o c16OracleArgs) toArgs(discard bool) c16Args {
@@ -768,6 +782,11 @@ func c16RealOracle(raw json.RawMessage) any {
 			a.SkipNormalization, a.SkipResolveEnvironment = true, true
 			out["load_seq_only"] = c16RealLoad(a)
 		}
+		if o.Merge {
+			a := o.toArgs(o.Discard)
+			a.Layout = "merge"
+			out["load_merge"] = c16RealLoad(a)
+		}
 		if o.Sites {
 			a := o.toArgs(o.Discard)
 			a.Methods = true
@@ -875,7 +894,23 @@ func c16JudgeOracle(args, real, drv json.RawMessage) *core.Verdict {
 		return core.Disagree("malformed spec outcome: " + string(drv))
 	}
 	outs := map[string]c16Out{}
-	for _, via := range []string{"direct", "direct_discard", "load", "load_methods", "load_include", "load_extends", "load_extends-split"} {
+	// round 7: a path listed twice.  override.EnforceUnicity de-duplicates `env_file` lists of a whole load by path (first
+	// position, last entry): where that contradicts the written order it is the recorded finding
+	// `repeated-path-first-position:env_file`; `label_file` lists are not de-duplicated and must follow the written order
+	envListed, repEnv := []c16EnvFile{}, false
+	for _, l := range o.EnvLayers {
+		for _, f := range envListed {
+			repEnv = repEnv || f.Path == l.listed()
+		}
+		envListed = append(envListed, c16EnvFile{Path: l.listed(), Required: l.Required})
+	}
+	envFail := func(via, key, what string) *core.Verdict {
+		if repEnv && strings.HasPrefix(via, "load") {
+			return core.Fail("repeated-path-first-position:env_file", "an env_file path listed twice: the list is de-duplicated by path keeping the first position, the written order is lost ("+via+": "+what+")")
+		}
+		return core.Fail(key, what)
+	}
+	for _, via := range []string{"direct", "direct_discard", "load", "load_merge", "load_methods", "load_include", "load_extends", "load_extends-split"} {
 		raw, ok := r[via]
 		if !ok {
 			continue
@@ -925,7 +960,7 @@ func c16JudgeOracle(args, real, drv json.RawMessage) *core.Verdict {
 				if gok {
 					g = c16PStr(got)
 				}
-				return core.Fail("env-precedence:"+via+":"+c16Sig(o, k, false), fmt.Sprintf("environment[%s] = %s, the layering says %s", k, g, w))
+				return envFail(via, "env-precedence:"+via+":"+c16Sig(o, k, false), fmt.Sprintf("environment[%s] = %s, the layering says %s", k, g, w))
 			}
 			wl, wlok := spec.Labels[k]
 			gl, glok := obs.Labels[k]
@@ -958,12 +993,15 @@ func c16JudgeOracle(args, real, drv json.RawMessage) *core.Verdict {
 				return core.Fail("discard-keeps-file-refs:"+via, "file references survive the discard option")
 			}
 		} else {
-			if len(obs.EnvFiles) != len(o.EnvLayers) || len(obs.LabelFiles) != len(o.LabelLayers) {
-				return core.Fail("file-refs-changed:"+via, "file references changed without the discard option")
+			if len(obs.LabelFiles) != len(o.LabelLayers) {
+				return core.Fail("file-refs-changed:"+via, "label_file references changed without the discard option")
+			}
+			if len(obs.EnvFiles) != len(o.EnvLayers) {
+				return envFail(via, "file-refs-changed:"+via, "env_file references changed without the discard option")
 			}
 			for i, l := range o.EnvLayers {
 				if obs.EnvFiles[i].Path != l.listed() || obs.EnvFiles[i].Required != l.Required {
-					return core.Fail("file-refs-changed:"+via, "env_file reference changed without the discard option")
+					return envFail(via, "file-refs-changed:"+via, "env_file reference changed without the discard option")
 				}
 			}
 			for i, l := range o.LabelLayers {
